@@ -1,0 +1,32 @@
+//go:build verif
+
+package tcplistener
+
+// Add-only exports for the verification harness (/verif, property C08).
+// Nothing here changes behaviour; the file is only compiled with -tags verif.
+
+// VerifMultiLineReader gives the harness access to the unexported multiLineReader.
+type VerifMultiLineReader struct {
+	mlr *multiLineReader
+}
+
+// VerifNewMultiLineReader calls newMultiLineReader with the given reader, record-start test, sizes and consumer.
+func VerifNewMultiLineReader(read func(p []byte) (int, error), test func(s []byte) bool,
+	minBufferSize, softRecordLimit int, consume func(s []byte),
+) *VerifMultiLineReader {
+	return &VerifMultiLineReader{mlr: newMultiLineReader(read, test, minBufferSize, softRecordLimit, consume)}
+}
+
+// Read calls multiLineReader.Read
+func (v *VerifMultiLineReader) Read() error { return v.mlr.Read() }
+
+// Flush calls multiLineReader.Flush
+func (v *VerifMultiLineReader) Flush() { v.mlr.Flush() }
+
+// FlushAll calls multiLineReader.FlushAll
+func (v *VerifMultiLineReader) FlushAll() { v.mlr.FlushAll() }
+
+// Offsets returns (offsetSearch, offsetAppend, len(buffer)) for observation only
+func (v *VerifMultiLineReader) Offsets() (int, int, int) {
+	return v.mlr.offsetSearch, v.mlr.offsetAppend, len(v.mlr.buffer)
+}
